@@ -179,4 +179,7 @@ pub struct RunOut {
     /// hash over everything observable (schedule, I/O log digests, results): determinism test
     pub obs_hash: u64,
     pub sample: Option<serde_json::Value>,
+    /// the exact sub-scenario (fault position, crash point) that failed, for minimisation/replay
+    #[serde(default)]
+    pub pinned: Option<Box<Scenario>>,
 }
